@@ -263,9 +263,9 @@ macro_rules! lasso_invalid {
         }
     };
 }
-// @vp name=c08_lasso_negative_alpha prop=C08 tier=quick t=480 mem=30 fns=Lasso::fit size=3x1 dom=x-concrete,alpha-any-negative-f64,normalize-symbolic stubs=no_format,powi64,trap_optimize
+// @vp name=c08_lasso_negative_alpha prop=C08 tier=quick t=480 fns=Lasso::fit size=3x1 dom=x-concrete,alpha-any-negative-f64,normalize-symbolic stubs=no_format,powi64,trap_optimize
 lasso_invalid!(c08_lasso_negative_alpha, 0, 3);
-// @vp name=c08_lasso_nonpositive_tol prop=C08 tier=quick t=480 mem=30 fns=Lasso::fit size=3x1 dom=x-concrete,tol-any-f64<=0,normalize-symbolic stubs=no_format,powi64,trap_optimize
+// @vp name=c08_lasso_nonpositive_tol prop=C08 tier=quick t=480 fns=Lasso::fit size=3x1 dom=x-concrete,tol-any-f64<=0,normalize-symbolic stubs=no_format,powi64,trap_optimize
 lasso_invalid!(c08_lasso_nonpositive_tol, 1, 3);
 // @vp name=c08_lasso_zero_max_iter prop=C08 tier=quick t=480 fns=Lasso::fit size=3x1 dom=x-concrete,max_iter=0,normalize-symbolic stubs=no_format,powi64,trap_optimize
 lasso_invalid!(c08_lasso_zero_max_iter, 2, 3);
@@ -309,7 +309,7 @@ macro_rules! lasso_const_col {
         }
     };
 }
-// @vp name=c08_lasso_constant_column_lattice prop=C08 tier=quick t=480 mem=30 fns=Lasso::fit,rescale_x,MatrixStats::mean,std size=3x1 dom=constant-column-c=k/4,k-8..8 stubs=no_format,powi64,trap_optimize
+// @vp name=c08_lasso_constant_column_lattice prop=C08 tier=quick t=480 fns=Lasso::fit,rescale_x,MatrixStats::mean,std size=3x1 dom=constant-column-c=k/4,k-8..8 stubs=no_format,powi64,trap_optimize
 lasso_const_col!(c08_lasso_constant_column_lattice, lat64(-8, 8).1 / 4.0);
 // @vp name=c08_lasso_constant_column_0_3 prop=C08 tier=thorough t=3000 fns=Lasso::fit,rescale_x,MatrixStats::mean,std size=3x1 dom=concrete-witness-c=0.3 stubs=no_format,powi64,trap_optimize kf=C08-constant-column-not-rejected hang=violation inputs=none
 lasso_const_col!(c08_lasso_constant_column_0_3, 0.3);
